@@ -22,6 +22,7 @@ RULE = (
     "distinct by construction per (zone, interval start) in walks, (kind, case) hash otherwise."
 )
 ASSUMPTIONS = ["synthetic zones (not in the property's scope) are checked for containment/abutment/termination only"]
+CASE_SCALE = {"synthetic": 10, "window": 10}
 
 DAY = Z.DAY
 SEC = Z.SEC
